@@ -78,6 +78,24 @@ Section InPlaceProofs.
         apply slice_write_at_same. lia.
   Qed.
 
+  (* zero-filling a null section (clipped to the section): its own range becomes zeroes, every other
+     indexed range is untouched *)
+  Lemma write_null_spec f r : length f = length f0 -> In r idx ->
+    length (write_null f r) = length f0 /\
+    range_of (write_null f r) r = repeat 0%N (r_size r) /\
+    (forall a, In a idx -> a <> r -> range_of (write_null f r) a = range_of f a).
+  Proof.
+    intros L I. pose proof (idx_bounds r I) as B. unfold in_bounds in B. unfold write_null.
+    assert (Lr : length (repeat 0%N (r_size r)) = r_size r) by apply repeat_length.
+    assert (Bf : r_start r + r_size r <= length f) by (rewrite L; exact B).
+    split; [rewrite write_at_length; rewrite ?repeat_length; assumption|]. split.
+    - unfold range_of. rewrite <- Lr at 2. apply slice_write_at_same. rewrite repeat_length. exact Bf.
+    - intros a Ia Na. unfold range_of. pose proof (idx_bounds a Ia) as Ba. unfold in_bounds in Ba.
+      destruct (idx_disjoint a r Ia I Na) as [D|D].
+      + apply slice_write_at_before; [exact D|]. eapply Nat.le_trans; [apply Nat.le_add_r|exact Bf].
+      + apply slice_write_at_after; rewrite repeat_length; [exact D|exact Bf].
+  Qed.
+
   (* Invariant of a run: every indexed range is as in f0 or hashes to its id. *)
   Definition settled (f : bytes) : Prop :=
     length f = length f0 /\ forall a, In a idx -> range_of f a = range_of f0 a \/ H (range_of f a) = r_id a.
